@@ -5,46 +5,57 @@ unchanged) is `Spec.apply` over the lines (C10).  The cluster-level functions ar
 code on stable vocabularies by the oracle of ./check C13.
 -/
 import RosedVerif.Spec.AlignLemmas
+import RosedVerif.Model.AlignRefine
 namespace RosedVerif.Props
 open RosedVerif.Spec
 variable {α : Type} (tk : Toks α)
 
 /-- Left: leading whitespace stripped (exactly the maximal whitespace prefix), padded on the right only -/
 theorem C13_left_shape (w : Int) (l : List α) :
-    (∃ n, alignLeft tk w l = stripLeft tk l ++ List.replicate n tk.sp) ∧
+    (∃ n, Spec.alignLeft tk w l = stripLeft tk l ++ List.replicate n tk.sp) ∧
     (∃ p, l = p ++ stripLeft tk l ∧ (∀ c ∈ p, tk.ws c = true) ∧
       (∀ c, (stripLeft tk l).head? = some c → tk.ws c = false)) :=
   ⟨alignLeft_shape tk w l, stripLeft_spec tk l⟩
 
 /-- … exactly w clusters wide when the kept text is at most w; longer lines keep their text -/
 theorem C13_left_width (w : Int) (l : List α) (h : ((stripLeft tk l).length : Int) ≤ w) :
-    ((alignLeft tk w l).length : Int) = w := alignLeft_length tk w l h
+    ((Spec.alignLeft tk w l).length : Int) = w := alignLeft_length tk w l h
 theorem C13_left_long (w : Int) (l : List α) (h : w ≤ (stripLeft tk l).length) :
-    alignLeft tk w l = stripLeft tk l := alignLeft_long tk w l h
+    Spec.alignLeft tk w l = stripLeft tk l := alignLeft_long tk w l h
 
 /-- Right: trailing whitespace stripped, padded on the left only -/
 theorem C13_right_shape (w : Int) (l : List α) :
-    (∃ n, alignRight tk w l = List.replicate n tk.sp ++ stripRight tk l) ∧
+    (∃ n, Spec.alignRight tk w l = List.replicate n tk.sp ++ stripRight tk l) ∧
     (∃ q, l = stripRight tk l ++ q ∧ (∀ c ∈ q, tk.ws c = true) ∧
       (∀ c, (stripRight tk l).getLast? = some c → tk.ws c = false)) :=
   ⟨alignRight_shape tk w l, stripRight_spec tk l⟩
 theorem C13_right_width (w : Int) (l : List α) (h : ((stripRight tk l).length : Int) ≤ w) :
-    ((alignRight tk w l).length : Int) = w := alignRight_length tk w l h
+    ((Spec.alignRight tk w l).length : Int) = w := alignRight_length tk w l h
 theorem C13_right_long (w : Int) (l : List α) (h : w ≤ (stripRight tk l).length) :
-    alignRight tk w l = stripRight tk l := alignRight_long tk w l h
+    Spec.alignRight tk w l = stripRight tk l := alignRight_long tk w l h
 
 /-- Center: both sides stripped, padded on both sides with the left pad equal to or one more than the right -/
 theorem C13_center_shape (w : Int) (l : List α) :
-    ∃ a b, alignCenter tk w l =
+    ∃ a b, Spec.alignCenter tk w l =
         List.replicate a tk.sp ++ stripRight tk (stripLeft tk l) ++ List.replicate b tk.sp ∧
       (a = b ∨ a = b + 1) := alignCenter_shape tk w l
 theorem C13_center_width (w : Int) (l : List α) (h : ((stripRight tk (stripLeft tk l)).length : Int) ≤ w) :
-    ((alignCenter tk w l).length : Int) = w := alignCenter_length tk w l h
+    ((Spec.alignCenter tk w l).length : Int) = w := alignCenter_length tk w l h
 theorem C13_center_long (w : Int) (l : List α) (h : w ≤ (stripRight tk (stripLeft tk l)).length) :
-    alignCenter tk w l = stripRight tk (stripLeft tk l) := alignCenter_long tk w l h
+    Spec.alignCenter tk w l = stripRight tk (stripLeft tk l) := alignCenter_long tk w l h
+
+/-- **refinement**: for every context in which each atom is its own cluster, the models of
+manip.AlignLineLeft/Right/Center (IndexFunc / LastIndexFunc / Reverse / Sub / RepeatStr, transliterated)
+compute exactly the specification above — every width, every line -/
+theorem C13_refines [DecidableEq α] (cx : RosedVerif.Ctx α) (htriv : ∀ s, cx.ends s = List.range' 1 s.length)
+    (s : List α) (w : Int) :
+    RosedVerif.alignLeft cx s w = Spec.alignLeft ⟨cx.isSpace, cx.sp, cx.hy⟩ w s ∧
+    RosedVerif.alignRight cx s w = Spec.alignRight ⟨cx.isSpace, cx.sp, cx.hy⟩ w s ∧
+    RosedVerif.alignCenter cx s w = Spec.alignCenter ⟨cx.isSpace, cx.sp, cx.hy⟩ w s :=
+  ⟨RosedVerif.alignLeft_triv cx htriv s w, RosedVerif.alignRight_triv cx htriv s w, RosedVerif.alignCenter_triv cx htriv s w⟩
 
 /-! non-vacuity: widths ≤ 0, whitespace-only line, odd padding -/
-example : alignCenter ⟨(· == 0), 0, 99⟩ 6 [0, 1, 2, 3, 0] = [0, 0, 1, 2, 3, 0] := by decide
-example : alignLeft ⟨(· == 0), 0, 99⟩ (-2) [0, 0] = [] := by decide
+example : Spec.alignCenter ⟨(· == 0), 0, 99⟩ 6 [0, 1, 2, 3, 0] = [0, 0, 1, 2, 3, 0] := by decide
+example : Spec.alignLeft ⟨(· == 0), 0, 99⟩ (-2) [0, 0] = [] := by decide
 
 end RosedVerif.Props
